@@ -64,6 +64,12 @@ def kf_exact_maxlength_hit_rejected(w, native):
     return only_rule and info.get("rule_accepts") and not info.get("accepted") and info["n_new"] + 2 == w["maxlength"] and info.get("status") in ("FTX", "BTX", "FTL", "BTL")
 
 
+def kf_tie_at_lambda0(w, native):
+    """The zero-swap tie finding of C11 is the same defect under C09's "crosses the ensemble's interface" (lazy import: C11 imports C09)."""
+    from props import C11
+    return C11.kf_tie_at_lambda0(w, native)
+
+
 KNOWN_CLASSES = [kf_exact_maxlength_hit_rejected, kf_length_rule_off_by_one, kf_u_zero]
 
 
@@ -94,6 +100,9 @@ def _run(w):
 
 def search(obname, limit=20000):
     fn = obname.split("/")[0]
+    if fn == "retis_swap_zero":
+        from props import C11
+        return C11.search(obname)
     if fn not in ("shoot", "native_crosscheck", "EngineBase.add_to_path", "Path.get_shooting_point"):
         return None
     known = None
@@ -112,6 +121,9 @@ def search(obname, limit=20000):
 def replay(obname, w):
     if not w:
         return {"reproduced": False, "detail": "no witness"}
+    if "old0" in w:
+        from props import C11
+        return C11._run(w)
     if w.get("function") == "shoot" or "back" in w:
         return _run(w)
     fn = obname.split("/")[0]
